@@ -124,7 +124,9 @@ kind_to_target = dict(
 )
 
 constant_to_target = dict(
+    smallest_subnormal="std::numeric_limits<{type}>::denorm_min()",
     smallest="std::numeric_limits<{type}>::min()",
+    eps="std::numeric_limits<{type}>::epsilon()",
     largest="std::numeric_limits<{type}>::max()",
     posinf="std::numeric_limits<{type}>::infinity()",
     neginf="-std::numeric_limits<{type}>::infinity()",
